@@ -98,6 +98,17 @@ theorem relevantAtoms_congr {rules rules' : List Rule} (h : REqv rules rules') (
   unfold relevantAtoms
   exact gamma_congr (depRules_rsub h.1 roots) (depRules_rsub h.2 roots) _ _ _
 
+theorem relevantAtoms_roots_congr (rules : List Rule) (natoms : Nat) {roots roots' : List Nat}
+    (h : ∀ a, a ∈ roots ↔ a ∈ roots') : relevantAtoms rules natoms roots = relevantAtoms rules natoms roots' := by
+  unfold relevantAtoms
+  have key : ∀ {r1 r2 : List Nat}, (∀ a, a ∈ r1 → a ∈ r2) → RSub (depRules rules r1) (depRules rules r2) := by
+    intro r1 r2 h12 d hd
+    refine ⟨d, ?_, REquiv.refl d⟩
+    rcases mem_depRules.1 hd with ⟨a, ha, rfl⟩ | hx
+    · exact mem_depRules.2 (Or.inl ⟨a, h12 a ha, rfl⟩)
+    · exact mem_depRules.2 (Or.inr hx)
+  exact gamma_congr (key fun a => (h a).1) (key fun a => (h a).2) _ _ _
+
 /-- reachability from the roots through rule bodies, staying inside the atoms `< n` -/
 inductive Reach (n : Nat) (rules : List Rule) (roots : List Nat) : Nat → Prop
   | root {a : Nat} : a ∈ roots → a < n → Reach n rules roots a
